@@ -123,6 +123,26 @@ def rule_canon(P):
     else:
         fail("sparse input is sorted before hashing / duplicate test", "sort", "a sparse unpacked node can reach the unique table unsorted: equal nodes hash and compare differently")
 
+    # (3b) nothing that depends on the order of the entries runs before the sort.  "Sparse world": every isSparse() test is true.
+    ORDER_DEPENDENT = {
+        "normalize_evstar": "it divides by the first non-zero edge value in storage order",
+        "unpacked_node::computeHash": "it pushes (index, child, edge) in storage order",
+        "unique_table::find": "the duplicate test compares a sparse key position by position",
+    }
+    sparse_false = lambda b, arm: b.kind == "branch" and b.cond and len(b.succ) == 2 and b.cond.get("op") == "truth" and any(c.endswith("unpacked_node::isSparse") for c in b.cond["calls"]) and arm == (0 if b.cond.get("neg") else 1)
+    for name, why in sorted(ORDER_DEPENDENT.items()):
+        R.paths += 1
+        iid = "a sparse node is sorted before %s" % name.split("::")[-1]
+        hits = g.where(_is_call(name))
+        if not hits:
+            fail(iid, "sort-before:" + name.split("::")[-1], "createReducedNode no longer calls %s: the ordering obligation cannot be placed" % name)
+            continue
+        pth = g.path(g.entry, _is_call(name), avoid=_is_call("unpacked_node::sort"), avoid_edge=sparse_false)
+        if pth:
+            fail(iid, "sort-before:" + name.split("::")[-1], "a sparse unpacked node written in non-ascending index order reaches %s before it is sorted, and %s: the same function written in two orders gets two different nodes" % (name.split("::")[-1], why), pth, hits[0].line)
+        else:
+            R.ok(iid, where(f, hits[0].line))
+
     # (4) identity pattern, (5) redundancy: heads of the condition chains are on every insertion path, eliminations never insert
     def one_nnz(n):
         if n.kind != "branch" or not n.cond or n.cond.get("op") != "==":
@@ -317,4 +337,56 @@ def rule_hash(P):
     return R
 
 
-RULES = [rule_canon, rule_equals, rule_hash]
+EDGE_SLOT_ACCESSORS = {
+    # slot accessors of edge values: only edge-valued code calls them, each asserts MEDDLY_DCASSERT(_edge)
+    "MEDDLY::unpacked_node::edgeval": "returns slot n's edge value to edge-valued callers",
+    "MEDDLY::unpacked_node::subtractFromEdge": "EV+ normalisation only",
+    "MEDDLY::unpacked_node::divideEdge": "EV* normalisation only",
+    "MEDDLY::unpacked_node::setEdgeval": "edge-valued callers only",
+}
+
+
+def rule_edge_array_guarded(P):
+    """an unpacked node of a multi-terminal forest has no edge-value array (_edge is null).  Methods that run for every forest kind — sort() is called
+    by createReducedNode on every sparse node — may touch _edge[…] only under `hasEdges()` / `_edge`; the per-slot setters do exactly that.  sort()
+    swapped _edge[] unconditionally (D24): a multi-terminal sparse node written out of index order crashed in createReducedNode"""
+    R = RuleResult("canon.edge-array-guarded", "in unpacked_node's methods every use of _edge[…] is governed by the true arm of hasEdges() or of a test of _edge itself; the slot accessors for edge-valued callers are listed with their reason; the raw-pointer setters (const void*) are edge-valued by signature")
+    n = 0
+    seen = set()
+    for f in sorted(P.fns.values(), key=lambda f: (f["file"], f["line"], f["inst"])):
+        if not f.get("cfg") or f["file"] not in ("unpacked_node.cc", "unpacked_node.h") or not f["q"].startswith(M + "unpacked_node::") or (f["file"], f["line"]) in seen:
+            continue
+        seen.add((f["file"], f["line"]))
+        g = Graph(f)
+        for k in g.nodes:
+            if k.kind not in ("call", "ret", "store", "ldef", "astore") or "_edge[" not in str({a: b for a, b in (k.ev or {}).items() if a in ("args", "recv", "text", "rhs", "lhs")}):
+                continue
+            n += 1
+            R.functions.add(f["inst"])
+            R.paths += 1
+            iid = "%s: _edge[…] at line offset %d" % (base_name(f["q"]).replace(M, ""), k.line - f["line"])
+            iid = "%s: use of _edge[…] (%s)" % (base_name(f["q"]).replace(M, ""), k.ev.get("q", k.kind).split("::")[-1])
+            guarded = False
+            for c in g.nodes:
+                if c.kind != "branch" or not c.cond or len(c.succ) != 2:
+                    continue
+                t = re.sub(r"\s+|this->", "", c.cond["text"]).lstrip("!")
+                if t not in ("hasEdges()", "_edge"):
+                    continue
+                arms = [i for s_, i in c.succ if k.id in g.reach([s_], avoid=lambda x, c=c: x.id == c.id)]
+                if arms == [1 if c.cond.get("neg") else 0]:
+                    guarded = True
+            if guarded:
+                R.ok(iid, where(f, k.line))
+            elif base_name(f["q"]) in EDGE_SLOT_ACCESSORS or "const void *" in f.get("sig", ""):
+                R.ok(iid, where(f, k.line), exempt=EDGE_SLOT_ACCESSORS.get(base_name(f["q"]), "raw edge-value pointer parameter: edge-valued by signature"))
+            else:
+                R.fail(iid, where(f, k.line), Finding(R.rule, f["file"], base_name(f["q"]), "edge-array:" + k.ev.get("q", k.kind).split("::")[-1],
+                       "_edge[…] is used without a governing hasEdges() / _edge test: in a multi-terminal forest the array is null, and this method is not a slot accessor for edge-valued callers", k.line))
+    if n < 8:
+        raise AnalysisBroken("canon.edge-array-guarded: only %d uses of _edge[…] found in unpacked_node, expected ≥8" % n)
+    R.require_floor(8, "uses of the edge-value array in unpacked_node")
+    return R
+
+
+RULES = [rule_canon, rule_equals, rule_hash, rule_edge_array_guarded]
